@@ -831,6 +831,12 @@ clr_poss(bitint383_t *restrict cand, const bitint383_t *poss)
 		/* just shave bits off of cand */
 		for (int p = pos - prev;
 		     p > 0 && (c = bi383_next(&ci, cand), ci); p--);
+		if (UNLIKELY(!ci)) {
+			/* fewer candidates than that, the iterator has been
+			 * reset, count the next position from the start */
+			pos = 0;
+			continue;
+		}
 		/* assign if successful */
 		if (LIKELY(c > 0)) {
 			ass_bi383(&res, c);
